@@ -399,61 +399,56 @@ Definition order_of (cfg : config) (strat : strategy) (next : N) (perm : list N)
 Inductive dev := Arrive (c k : N) | Complete (r : N) | Return (c : N) | Cancel (c : N).
 
 Record dst := mkDst {
-  active : list (N * N);          (* active_requests: key -> run *)
-  nruns : N;                      (* runs created so far *)
-  run_key : list (N * N);         (* run -> key *)
-  completed : list N;             (* runs whose future has resolved *)
-  waiting : list (N * (N * bool));(* caller -> (run, is_creator), still inside send() *)
-  returned : list (N * N);        (* caller -> run whose result it received *)
+  active : N -> option N;          (* active_requests: key -> run *)
+  nruns : N;                       (* runs created so far; run ids are 0 .. nruns-1 *)
+  run_key : N -> N;                (* run -> key *)
+  completed : N -> bool;           (* runs whose future has resolved *)
+  waiting : N -> option (N * bool);(* caller -> (run, is_creator), still inside send() *)
+  returned : N -> option N;        (* caller -> run whose result it received *)
 }.
 
-Definition dst0 : dst := mkDst [] 0 [] [] [] [].
+Definition dst0 : dst :=
+  mkDst (fun _ => None) 0 (fun _ => 0) (fun _ => false) (fun _ => None) (fun _ => None).
 
-Fixpoint assoc {A} (k : N) (l : list (N * A)) : option A :=
-  match l with [] => None | (k', v) :: l' => if N.eqb k k' then Some v else assoc k l' end.
-Fixpoint remove_key {A} (k : N) (l : list (N * A)) : list (N * A) :=
-  match l with [] => [] | (k', v) :: l' => if N.eqb k k' then remove_key k l' else (k', v) :: remove_key k l' end.
-Definition memN (x : N) (l : list N) : bool := existsb (N.eqb x) l.
-
-Definition key_of (s : dst) (r : N) : N := match assoc r (run_key s) with Some k => k | None => 0 end.
+Definition upd1 {A} (f : N -> A) (k : N) (v : A) : N -> A := fun x => if N.eqb x k then v else f x.
 
 (* the creator's drop guard: active_requests.remove(key) — by KEY, whatever entry is there *)
-Definition cleanup (s : dst) (r : N) (creator : bool) : list (N * N) :=
-  if creator then remove_key (key_of s r) (active s) else active s.
+Definition cleanup (s : dst) (r : N) (creator : bool) : N -> option N :=
+  if creator then upd1 (active s) (run_key s r) None else active s.
 
 Definition dstep (s : dst) (e : dev) : dst :=
   match e with
   | Arrive c k =>
-      match assoc c (waiting s), assoc c (returned s) with
+      match waiting s c, returned s c with
       | None, None =>
-          match assoc k (active s) with
+          match active s k with
           | Some r => mkDst (active s) (nruns s) (run_key s) (completed s)
-                            ((c, (r, false)) :: waiting s) (returned s)
+                            (upd1 (waiting s) c (Some (r, false))) (returned s)
           | None =>
               let r := nruns s in
-              mkDst ((k, r) :: active s) (r + 1) ((r, k) :: run_key s) (completed s)
-                    ((c, (r, true)) :: waiting s) (returned s)
+              mkDst (upd1 (active s) k (Some r)) (r + 1) (upd1 (run_key s) r k) (completed s)
+                    (upd1 (waiting s) c (Some (r, true))) (returned s)
           end
       | _, _ => s      (* a caller arrives once *)
       end
   | Complete r =>
-      if (r <? nruns s) && negb (memN r (completed s))
-      then mkDst (active s) (nruns s) (run_key s) (r :: completed s) (waiting s) (returned s)
+      if (r <? nruns s) && negb (completed s r)
+      then mkDst (active s) (nruns s) (run_key s) (upd1 (completed s) r true) (waiting s) (returned s)
       else s
   | Return c =>
-      match assoc c (waiting s) with
+      match waiting s c with
       | Some (r, cr) =>
-          if memN r (completed s)
+          if completed s r
           then mkDst (cleanup s r cr) (nruns s) (run_key s) (completed s)
-                     (remove_key c (waiting s)) ((c, r) :: returned s)
+                     (upd1 (waiting s) c None) (upd1 (returned s) c (Some r))
           else s        (* the run has not finished: the caller keeps waiting *)
       | None => s
       end
   | Cancel c =>
-      match assoc c (waiting s) with
+      match waiting s c with
       | Some (r, cr) =>
           mkDst (cleanup s r cr) (nruns s) (run_key s) (completed s)
-                (remove_key c (waiting s)) (returned s)
+                (upd1 (waiting s) c None) (returned s)
       | None => s
       end
   end.
@@ -462,4 +457,20 @@ Definition drun (evs : list dev) : dst := fold_left dstep evs dst0.
 
 (* runs of key k that have been created and have not completed *)
 Definition inflight (s : dst) (k : N) : list N :=
-  filter (fun r => N.eqb (key_of s r) k && negb (memN r (completed s))) (map fst (run_key s)).
+  filter (fun r => N.eqb (run_key s r) k && negb (completed s r)) (seqN 0 (N.to_nat (nruns s))).
+
+(* the schedule never cancels the creator of a run that is still unfinished *)
+Fixpoint safe_from (s : dst) (evs : list dev) : bool :=
+  match evs with
+  | [] => true
+  | e :: evs' =>
+      match e with
+      | Cancel c => match waiting s c with Some (r, true) => completed s r | _ => true end
+      | _ => true
+      end && safe_from (dstep s e) evs'
+  end.
+Definition safe_sched (evs : list dev) : bool := safe_from dst0 evs.
+
+(* callers mentioned in a schedule, for enumerating [returned] *)
+Definition dev_caller (e : dev) : list N :=
+  match e with Arrive c _ => [c] | Return c => [c] | Cancel c => [c] | Complete _ => [] end.
